@@ -15,7 +15,7 @@ import random
 import sys
 import traceback
 
-os.environ.setdefault("NUMBA_DISABLE_JIT", "1")
+os.environ.setdefault("NUMBA_DISABLE_JIT", "0")
 import warnings
 
 warnings.filterwarnings("ignore")
